@@ -107,6 +107,54 @@ def join(n):
     return _cp().join_from_lists(n)
 
 
+def star_group(specs, n, rng):
+    """Plan the `*` columns of one list of n records.
+    specs: [(key, encoded value per element, element-is-default flags, text of a blank-able default or None)].
+    Each column becomes a single cell (all elements agree: broadcast), the full list, or the list WITHOUT its
+    trailing default-valued elements (so the list cells of one prefix have unequal lengths); the column order
+    is shuffled (any order of the `*` columns of one list is the same data).  Returns {key: cell} or None."""
+    plan = []
+    for key, ns, dflt, blank_default in specs:
+        if all(dflt):
+            if blank_default == "" and rng.random() < 0.3:
+                plan.append([key, "blank", 0, "", ns])
+            continue
+        same = len(set(json.dumps(x) for x in ns)) == 1 and isinstance(ns[0], str) and not dflt[0]
+        if same and rng.random() < 0.6:
+            plan.append([key, "scalar", 1, join(ns[0]), ns])
+            continue
+        k = max(i for i, d in enumerate(dflt) if not d) + 1
+        lst = ns[:k] if (k < n and rng.random() < 0.7) else ns
+        if depth(lst) > 2 or not wf_nested(lst):
+            lst = ns
+            if depth(lst) > 2 or not wf_nested(lst):
+                return None
+        plan.append([key, "list", len(lst), join(lst), ns])
+    if not any(p[1] != "blank" for p in plan):
+        return None
+    if n > 1 and not any(p[1] == "list" and p[2] == n for p in plan):
+        # the number of elements is the longest list: one column must spell all of them
+        cand = [p for p in plan if p[1] != "blank" and depth(p[4]) <= 2 and wf_nested(p[4])]
+        if not cand:
+            return None
+        p = rng.choice(cand)
+        p[1], p[2], p[3] = "list", n, join(p[4])
+    rng.shuffle(plan)
+    lens = [p[2] for p in plan if p[1] == "list"]
+    scal = [p for p in plan if p[1] == "scalar"]
+    for p in plan:
+        FEAT["star." + ("broadcast" if p[1] == "scalar" and n > 1 else p[1])] += 1
+    if len(set(lens)) > 1:
+        FEAT["star.unequal-lists"] += 1
+        pos = lens.index(max(lens))
+        FEAT["star.unequal-lists.longest-" + ("first" if pos == 0 else "last" if pos == len(lens) - 1 else "middle")] += 1
+        if scal:
+            FEAT["star.unequal+broadcast"] += 1
+            if lens[-1] < max(lens):
+                FEAT["star.unequal+broadcast.last-list-shorter"] += 1
+    return {p[0]: p[3] for p in plan}
+
+
 def encode(t, v, rng, prefix="", out=None, top=True, sj=None):
     """write value v at header `prefix` choosing a layout at random; returns {header: cell}"""
     out = {} if out is None else out
@@ -162,29 +210,21 @@ def encode(t, v, rng, prefix="", out=None, top=True, sj=None):
     if R.kind(et) == "model" and r < 0.7 and v:
         # `*` columns: one column per sub-field, holding the list of the elements' values, or a single
         # value when all elements agree (broadcast up to the longest list among the columns of the prefix)
-        cols = {}
+        specs = []
         ok = True
         for n, ft, d in et[2]:
             vals = [x[n] for x in v]
-            if d is not R.REQ and all(x == d for x in vals):
-                continue
             try:
                 ns = [nested(ft, x, rng, "pos") for x in vals]
             except Ambiguous:
                 ok = False
                 break
-            if len(set(json.dumps(x) for x in ns)) == 1 and isinstance(ns[0], str) and rng.random() < 0.7:
-                cols[n] = ("scalar", join(ns[0]))
-            elif depth(ns) <= 2 and wf_nested(ns):
-                cols[n] = ("list", join(ns))
-            else:
-                ok = False
-                break
-        if ok and cols and (len(v) == 1 or any(kind_ == "list" for kind_, _ in cols.values())):
-            for n, (kind_, txt) in cols.items():
-                hs = [n] + [h for h, f in et[3].items() if f == n]
-                out[f"{prefix}.*.{rng.choice(hs)}"] = txt
-                FEAT["star." + ("broadcast" if kind_ == "scalar" and len(v) > 1 else kind_)] += 1
+            hs = [n] + [h for h, f in et[3].items() if f == n]
+            specs.append((f"{prefix}.*.{rng.choice(hs)}", ns, [d is not R.REQ and x == d for x in vals],
+                          d if isinstance(d, str) else None))
+        cols = star_group(specs, len(v), rng) if ok else None
+        if cols:
+            out.update(cols)
             return out
     for i, x in enumerate(v):
         encode(et, x, rng, f"{prefix}.{i+1}", out, False, sj)
@@ -225,28 +265,10 @@ def flow_short(t, sj, v, rng):
             cols = {"edges.*.from_": [e["from_"] for e in edges]}
             for cf in ("value", "variable", "type", "name"):
                 cols[f"edges.*.condition.{cf}"] = [e["condition"][cf] for e in edges]
-            wrote_list = False
-            pend = {}
-            for long, vals in cols.items():
-                h = rng.choice(inv[long])
-                if all(x == "" for x in vals) and long != "edges.*.from_":
-                    if rng.random() < 0.5:
-                        pend[h] = ""
-                    continue
-                if len(set(vals)) == 1 and rng.random() < 0.6:
-                    FEAT["star.broadcast" if len(vals) > 1 else "star.scalar"] += 1
-                    pend[h] = join(vals[0])
-                elif wf_nested(vals):
-                    pend[h] = join(vals)
-                    wrote_list = wrote_list or len(vals) > 1
-                else:
-                    return None  # trailing blank element: this value has no all-short layout
-            # the number of edges must be recoverable: longest list among the `*` columns, or long headers
-            full = [h for h, c in pend.items() if "edges." not in h and isinstance(_cp().split_into_lists(c), list) and len(_cp().split_into_lists(c)) == len(edges)]
-            if len(edges) > 1 and not full:
-                pend[rng.choice(inv["edges.*.from_"])] = join([e["from_"] for e in edges]) if wf_nested([e["from_"] for e in edges]) else None
-                if pend.get("from") is None:
-                    return None
+            specs = [(rng.choice(inv[long]), vals, [x == "" for x in vals], "") for long, vals in cols.items()]
+            pend = star_group(specs, len(edges), rng)
+            if pend is None:
+                return None  # e.g. a blank element that no list cell can end in
             out.update(pend)
             continue
         if n in inv and rng.random() < 0.7:
@@ -322,6 +344,25 @@ def variants(si, v, rng, n_random, n_perm):
     return outs
 
 
+def diff_paths(a, b, path="", acc=None, limit=8):
+    """where two parse results differ: [(path, in a, in b)]"""
+    acc = [] if acc is None else acc
+    if len(acc) >= limit:
+        return acc
+    if isinstance(a, dict) and isinstance(b, dict) and set(a) == set(b):
+        for k in a:
+            diff_paths(a[k], b[k], f"{path}.{k}" if path else str(k), acc, limit)
+    elif isinstance(a, (list, tuple)) and isinstance(b, (list, tuple)) and len(a) == len(b) and not (a and a[0] in ("ok", "err")):
+        for i, (x, y) in enumerate(zip(a, b)):
+            diff_paths(x, y, f"{path}[{i}]", acc, limit)
+    elif isinstance(a, (list, tuple)) and isinstance(b, (list, tuple)) and len(a) == 2 and len(b) == 2 and a[0] == b[0] == "ok":
+        diff_paths(a[1], b[1], path, acc, limit)
+    elif a != b:
+        acc.append([path or "<row>", a if not isinstance(a, (dict, list)) or len(json.dumps(a, default=str)) < 200 else "…",
+                    b if not isinstance(b, (dict, list)) or len(json.dumps(b, default=str)) < 200 else "…"])
+    return acc
+
+
 def worker(cases):
     """cases: (schema index, value, sub-seed)"""
     import random
@@ -368,13 +409,19 @@ def worker(cases):
             # pairwise inequality: show the two layouts; a uniform deviation from the data is reported too
             a = distinct[0]
             b = distinct[1] if len(distinct) > 1 else (("<the data itself>", None), want)
-            out["viol"].append({
+            # replay = the two cell rows (enough to re-run parse_row) and where the parsed rows differ; the
+            # repo's own FlowRowModel needs no schema dump, other models carry their description
+            rec = {
                 "what": "equivalent layouts of one value parse to different rows" if len(distinct) > 1
                         else "every layout parses to the same row, but it is not the data that was laid out",
-                "schema": R.ty_json(t), "schema_name": t[1], "value": R.val_json(t, v),
-                "layout_a": {"kind": a[0][0], "cells": a[0][1], "parsed": a[1]},
-                "layout_b": {"kind": b[0][0], "cells": b[0][1], "parsed": b[1]},
-            })
+                "schema_name": t[1],
+                "layout_a": {"kind": a[0][0], "cells": a[0][1]},
+                "layout_b": {"kind": b[0][0], "cells": b[0][1]},
+                "parsed_rows_differ_at": diff_paths(a[1], b[1]),
+            }
+            if m["kind"] != "flow":
+                rec["schema"] = R.ty_json(t)
+            out["viol"].append(rec)
         if len(out["samples"]) < 1 and len(vs) > 3:
             out["samples"].append({"schema": t[1], "layouts": [c for _, c in vs[:4]]})
     return out
@@ -385,6 +432,12 @@ def worker(cases):
 def corpus(ck):
     """inputs of tests/test_differentways.py and tests/test_full_rows.py, nested values turned into cell
     text with the real join_from_lists, parsed with the real CellParser"""
+    import os
+    if os.environ.get("VERIF_C09_NO_CORPUS"):
+        # switch for judging the generated layouts on their own (e.g. against a seeded change)
+        ck.notes.append("test-suite corpus disabled by VERIF_C09_NO_CORPUS")
+        ck.count("corpus.unavailable")
+        return
     root = str(core.REPO)
     if root not in sys.path:
         sys.path.insert(1, root)
@@ -524,6 +577,71 @@ def fold(ck, results):
                 ck.samples.append(s)
 
 
+def structured_records(rng, et, names, n):
+    """n records of type et as sheets typically hold them: some basic sub-fields carry ONE non-default value
+    shared by all records (written as a single broadcast cell), some are filled for the leading records only
+    (trailing defaults: a shorter list cell), at least one is filled for every record (the longest list)."""
+    basic = [(fn, ft, d) for fn, ft, d in et[2] if R.kind(ft) in R.BASIC]
+    if not basic:
+        return None
+
+    def nondefault(ft, d):
+        for _ in range(20):
+            x = G.gen_value(rng, ft, names, True, in_list=True)
+            if d is R.REQ or x != d:
+                return x
+        return None
+
+    recs = [{fn: (d if d is not R.REQ else G.gen_value(rng, ft, names, True, False, 2)) for fn, ft, d in et[2]} for _ in range(n)]
+    rng.shuffle(basic)
+    roles = ["full"] + [rng.choice(["shared", "trail", "trail", "shared", "full", "default"]) for _ in basic[1:]]
+    for (fn, ft, d), role in zip(basic, roles):
+        if role == "default" and d is not R.REQ:
+            continue
+        if role == "shared":
+            x = nondefault(ft, d)
+            if x is None:
+                return None
+            for r_ in recs:
+                r_[fn] = x
+        else:
+            k = n if (role != "trail" or d is R.REQ or n < 2) else rng.randint(1, n - 1)
+            for r_ in recs[:k]:
+                x = nondefault(ft, d)
+                if x is None:
+                    return None
+                r_[fn] = x
+    return recs
+
+
+def structure(rng, t, v, names):
+    """replace the lists of records of a generated value by structured ones (see structured_records)"""
+    for fn, ft, d in t[2]:
+        if R.kind(ft) == "list" and R.kind(ft[1]) == "model" and rng.random() < 0.7:
+            recs = structured_records(rng, ft[1], names, rng.choice([2, 3, 3, 4]))
+            if recs:
+                v[fn] = recs
+    return v
+
+
+def structured_edges(rng, names):
+    """router-style edges: one `from`, one condition type / variable for all, a value per edge, names for the
+    leading edges only"""
+    n = rng.choice([2, 3, 3, 4])
+    nb = lambda: G.gen_str(rng, names, True, nonblank=True)  # noqa: E731
+    shared = {"from_": nb() if rng.random() < 0.8 else None, "type": nb() if rng.random() < 0.8 else None,
+              "variable": nb() if rng.random() < 0.6 else None}
+    k_name = rng.randint(1, n - 1) if rng.random() < 0.7 else n
+    k_var = rng.randint(1, n - 1) if rng.random() < 0.3 else n
+    edges = []
+    for i in range(n):
+        c = {"value": nb(), "variable": "", "type": "", "name": nb() if i < k_name else ""}
+        c["type"] = shared["type"] if shared["type"] is not None else (nb() if rng.random() < 0.5 else "")
+        c["variable"] = shared["variable"] if shared["variable"] is not None else (nb() if i < k_var else "")
+        edges.append({"from_": shared["from_"] if shared["from_"] is not None else nb(), "condition": c})
+    return edges
+
+
 def gen_cases(ck, per_schema, flow_n, n_random, n_perm):
     rng = ck.rng
     cases = []
@@ -536,6 +654,8 @@ def gen_cases(ck, per_schema, flow_n, n_random, n_perm):
             if got >= per_schema:
                 break
             v = G.gen_value(rng, t, names, True)
+            if rng.random() < 0.4:
+                v = structure(rng, t, v, names)
             if not (R.representable(t, v) and c07.remap_consistent(t, sj, v)):
                 continue
             got += 1
@@ -544,6 +664,9 @@ def gen_cases(ck, per_schema, flow_n, n_random, n_perm):
     got = 0
     while got < flow_n:
         v = c07.flow_value(rng, clean=True, consistent=True)
+        if rng.random() < 0.4:
+            v["edges"] = structured_edges(rng, ["value", "type", "name", "from", "start"])
+            ck.count("values.router-style-edges")
         if not (R.representable(t, v) and c07.remap_consistent(t, sj, v)):
             continue
         got += 1
@@ -556,7 +679,10 @@ def run(ck: core.Check):
     ck.rule = (
         "case = one layout (dict header → cell text) of one value; per value: unparse_row in up to 4 admissible target-header "
         "sets + random hand-built layouts (each field spread or packed; list cells with | or ;; records positional / keyword / "
-        "mixed / single scalar; lists of records as `*` columns with broadcast where all elements agree; flow rows with short "
+        "mixed / single scalar; lists of records as `*` columns in shuffled order — a single broadcast cell where all elements agree, "
+        "the full list, or the list without its trailing default-valued elements, so that the list cells of one prefix have UNEQUAL "
+        "lengths (longest first / middle / last) next to broadcast cells; 40 % of the values hold structured lists of records "
+        "(shared sub-field values, sub-fields filled for the leading records only; router-style edges for flow rows); flow rows with short "
         "headers from/condition/condition_value/condition_var/condition_variable/condition_type/condition_name/message_text/"
         "_nodeId/_ui_type/_ui_position or long forms, mixed) + permutations of columns of different top-level fields. Values: "
         "representable domain of C07 over the same schema family and alphabet. distinct = distinct (schema, value); a value is "
@@ -585,7 +711,10 @@ def run(ck: core.Check):
     corpus_need = () if ck.strata.get("corpus.unavailable") else ("corpus.differentways", "corpus.full_rows")
     for need in ("layout.unparse", "layout.encode", "layout.short", "layout.with-star-column", "layout.encode+perm") + corpus_need + (
                  "feature.record.positional", "feature.record.keyword", "feature.record.mixed", "feature.list.semicolon-cell",
-                 "feature.star.broadcast", "feature.star.list"):
+                 "feature.star.broadcast", "feature.star.list", "feature.star.unequal-lists",
+                 "feature.star.unequal-lists.longest-first", "feature.star.unequal-lists.longest-middle",
+                 "feature.star.unequal-lists.longest-last", "feature.star.unequal+broadcast",
+                 "feature.star.unequal+broadcast.last-list-shorter", "values.router-style-edges"):
         if not ck.strata.get(need):
             raise core.Infra(f"generator self-check: stratum {need} is empty")
     if (ck.tie_breaks or not ck.lean.ok) and not ck.violations and quick:
